@@ -88,24 +88,7 @@ class Lane(LaneBase):
     PROP = 'C10'
     AUDIT = 'CG/Audit/C10.lean'
     USE_TOPO = True           # hook for the topological-order lines (handler token `topo`), see topo_lines()
-    THEOREMS = [
-        'CG.C10.descendants_iff', 'CG.C10.ancestors_iff', 'CG.C10.isAncestor_iff', 'CG.C10.isDescendant_iff',
-        'CG.C10.commonAncestors_iff', 'CG.C10.commonDescendants_iff',
-        'CG.C10.allCausalPaths_iff', 'CG.C10.allCausalPaths_nodup', 'CG.C10.allCausalPaths_self',
-        'CG.C10.isDag_iff',
-        'CG.C10.nodesBetween_terminates', 'CG.C10.nodesBetweenF_spec', 'CG.C10.nodesBetween_eq',
-        'CG.C10.nodesBetween_empty', 'CG.C10.nodesBetween_self',
-        'CG.C10.directedPathExists_terminates', 'CG.C10.directedPathExists_iff', 'CG.C10.directedPathExists_sound',
-        'CG.C10.subgraph_nodes', 'CG.C10.subgraph_edges',
-        'CG.C10.subgraph_induced_ancestral', 'CG.C10.subgraph_induced_descendant',
-        'CG.C10.parentsGraph_star', 'CG.C10.childrenGraph_star',
-        'CG.C10.getSubgraph_ok', 'CG.C10.checked_queries_ok',
-        'CG.C10.isAncestor_consistent', 'CG.C10.isDescendant_consistent',
-        'CG.C10.nodesBetween_eq_paths_union',
-        'CG.C10.queries_order_invariant', 'CG.C10.queries_rename_invariant',
-        'CG.TopoThm.allTopo_iff', 'CG.TopoThm.isTopoOrder_iff', 'CG.TopoThm.linExt_path_forward',
-        'CG.TopoThm.exists_linExt', 'CG.TopoThm.allTopo_ne_nil_iff',
-    ]
+    THEOREMS = 'auto'
     RULE = ('a case is one graph with all its queries; non-trivial = the graph has at least one directed edge; '
             'distinct by (family, construction sequence)')
     TRUSTED = [
